@@ -6,8 +6,36 @@
 #include <occa/internal/core/streamTag.hpp>
 #include <occa/internal/utils/env.hpp>
 #include <occa/internal/io.hpp>
+#ifdef LIBOCCA_OCCA_VERIF
+#include <occa/internal/verif.hpp>
+#endif
+#ifdef LIBOCCA_OCCA_VERIF
+#include <atomic>
+#endif
 
 namespace occa {
+#ifdef LIBOCCA_OCCA_VERIF
+  namespace verif {
+    static std::atomic<long> liveCounters[clsCount];
+    static std::atomic<long> destroyedCounters[clsCount];
+
+    long liveCount(int cls) {
+      return ((cls >= 0) && (cls < clsCount)) ? liveCounters[cls].load() : -1;
+    }
+
+    long destroyedCount(int cls) {
+      return ((cls >= 0) && (cls < clsCount)) ? destroyedCounters[cls].load() : -1;
+    }
+
+    void liveAdd(int cls, long delta) {
+      liveCounters[cls] += delta;
+      if (delta < 0) {
+        destroyedCounters[cls] -= delta;
+      }
+    }
+  }
+#endif
+
   modeDevice_t::modeDevice_t(const occa::json &properties_) :
     mode((std::string) properties_["mode"]),
     properties(properties_),
